@@ -9,6 +9,7 @@ import (
 	"os"
 	"path/filepath"
 	"regexp"
+	"runtime"
 	"strings"
 	"sync"
 	"sync/atomic"
@@ -226,7 +227,62 @@ func raceAgent(c *Ctx) {
 			}
 		}
 	}
-	racePassFinish(c, total, "Agent: 2..5 goroutines x 2 operations over 3 shared ids, re-entrant handlers; Close / Collect over 63..1100 transactions")
+	// a very large table: one Collect over 50000 expired transactions while two goroutines Stop them in index order:
+	// every transaction gets exactly one terminal event, and Stop()==nil goes with the stopped event
+	for round := 0; round < 3; round++ {
+		const n = 50000
+		var mu sync.Mutex
+		stopped, timedOut := make([]uint8, n), make([]uint8, n)
+		idOf := func(i int) (t [12]byte) { t[0], t[1], t[2], t[5] = byte(i), byte(i>>8), byte(i>>16), 0x77; return }
+		a := stun.NewAgent(func(e stun.Event) {
+			i := int(e.TransactionID[0]) | int(e.TransactionID[1])<<8 | int(e.TransactionID[2])<<16
+			mu.Lock()
+			if errors.Is(e.Error, stun.ErrTransactionStopped) {
+				stopped[i]++
+			} else if errors.Is(e.Error, stun.ErrTransactionTimeOut) {
+				timedOut[i]++
+			}
+			mu.Unlock()
+		})
+		for i := 0; i < n; i++ {
+			_ = a.Start(idOf(i), time.Unix(1, 0))
+		}
+		stopOK := make([]uint8, n)
+		var wg sync.WaitGroup
+		var progress atomic.Int64
+		for g := 0; g < 2; g++ {
+			g := g
+			wg.Add(1)
+			go func() {
+				defer wg.Done()
+				for i := g; i < n; i += 2 {
+					if a.Stop(idOf(i)) == nil {
+						stopOK[i]++
+					}
+					progress.Add(1)
+				}
+			}()
+		}
+		wg.Add(1)
+		go func() {
+			defer wg.Done()
+			for progress.Load() < 300 {
+				runtime.Gosched()
+			}
+			_ = a.Collect(time.Unix(2, 0))
+		}()
+		wg.Wait()
+		_ = a.Close()
+		total++
+		for i := 0; i < n; i++ {
+			if int(stopped[i])+int(timedOut[i]) != 1 || stopped[i] != stopOK[i] {
+				c.Res.Violations = append(c.Res.Violations, raceViolation("many-transactions/terminal-events", fmt.Sprintf("50000 expired transactions, Collect || two goroutines stopping them: transaction %d got %d stopped and %d timeout events, Stop returned nil %d times (want one terminal event, stopped iff Stop returned nil)", i, stopped[i], timedOut[i], stopOK[i])))
+				racePassFinish(c, total, "")
+				return
+			}
+		}
+	}
+	racePassFinish(c, total, "Agent: 2..5 goroutines x 2 operations over 3 shared ids, re-entrant handlers; Close / Collect over 63..1100 transactions; Collect over 50000 || Stop")
 }
 
 // ---- C15 / C10: Client ----
